@@ -90,6 +90,15 @@ P2P_DGRAMS = {
     "EMPTY": b"",
     "LONG": b"\xaa" * 40,
 }
+# the same requests with the counter octet (offset 4) at its maximum: the handlers add 1 to it.  What a handler does with such a
+# request is its own business (the statement is a safety statement), but it must not leave the source *registered* unless the
+# registration was answered, and it must still reject the unregistered.
+P2P_EDGE_DGRAMS = {
+    "REG_FF": p2p_cmd(0x10, b4=0xFF),
+    "DMR_FF": p2p_cmd(0x11, b4=0xFF),
+    "RDAC_FF": p2p_cmd(0x12, b4=0xFF, length=36),
+}
+P2P_DGRAMS_ALL = {**P2P_DGRAMS, **P2P_EDGE_DGRAMS}
 P2P_ATTRS = ("p2p_is_registered",)
 
 
@@ -134,7 +143,9 @@ class P2PSystem(explore.System):
         SEAMS.uid = self.uid
         kind, pi = ev
         src = self.PEERS[pi]
-        req = P2P_DGRAMS[kind]
+        req = P2P_DGRAMS_ALL[kind]
+        edge = kind.endswith("_FF")
+        kind = kind[:-3] if edge else kind
         viol = []
         before = storage_snapshot(self.storage, P2P_ATTRS)
         rec_before = {d["address_in"]: (rid, d) for rid, d in before.items()}
@@ -151,7 +162,7 @@ class P2PSystem(explore.System):
         after = storage_snapshot(self.storage, P2P_ATTRS)
         case = {"event": [kind, list(src)], "registered": sorted(map(list, self.registered)), "sent": [[o.hex(), list(a) if a else a] for o, a in sent],
                 "classes": classes}
-        if raised is not None:
+        if raised is not None and not edge:
             viol.append(("exception:" + exc_sig(raised), {**case, "exc": repr(raised)}))
 
         # (c) nothing but a registration response / reject may ever go out for an unregistered source
@@ -167,7 +178,7 @@ class P2PSystem(explore.System):
                     viol.append(("unregistered_request_not_answered_by_single_reject", case))
             else:
                 want = ["ping_answer"] if kind == "PING" else ["acceptance", "redirect"]
-                if classes != want:
+                if classes != want and not (edge and (classes == [] or all(c in ("other", "redirect") for c in classes))):
                     viol.append(("registered_request_not_served", {**case, "expected": want}))
                 for (o, a), cl in zip(sent, classes):
                     ok_addr = a is not None and (tuple(a) == tuple(stored_out or ()) or tuple(a) == src or (a[0] == src[0] and a[1] == P2P_PORT))
@@ -180,9 +191,10 @@ class P2PSystem(explore.System):
                         if port != want_port:
                             viol.append(("redirect_to_wrong_port", {**case, "port": port, "expected": want_port}))
         elif kind == "REG":
-            if raised is None:
+            # a registration is completed when it was answered (the edge request may be refused in any way, but then it did not register)
+            if raised is None and (not edge or len(sent) == 1):
                 self.registered.add(src)
-            if classes != ["reg_response"]:
+            if classes != ["reg_response"] and not edge:
                 viol.append(("registration_not_answered_once", case))
         else:
             if sent:
@@ -222,6 +234,23 @@ class P2PSystem(explore.System):
 
 class P2PSystem4(P2PSystem):
     PEERS = [PA, PB, PC, PA2]
+
+
+class P2PSystemEdge(P2PSystem):
+    INITS = ["empty"]
+    PEERS = [PA, PB]
+    KINDS = ["REG", "DMR", "RDAC", "PING", "EMPTY"] + list(P2P_EDGE_DGRAMS)
+
+
+V6A = ("2001:db8:a::1", 50000)
+V6B = ("2001:db8:b::1", 50000)  # same last group as V6A
+V6M = ("::ffff:10.1.0.1", 50000)  # IPv4-mapped spelling of PA's host
+
+
+class P2PSystemV6(P2PSystem):
+    INITS = ["empty"]
+    PEERS = [V6A, V6B, V6M, PA]
+    KINDS = ["REG", "DMR", "RDAC", "PING", "EMPTY"]
 
 
 # =============================================================================================
@@ -413,6 +442,12 @@ class RDACSystem(explore.System):
                 repr(canon(self.impl, skip=IMPL_SKIP)))
 
 
+class RDACSystemV6(RDACSystem):
+    # peers whose textual addresses share their last group / embed another peer's IPv4 address
+    PEERS = [("2001:db8:a::1", 50002), ("2001:db8:b::1", 50002), ("::ffff:10.2.0.1", 50002), ("10.2.0.1", 50002)]
+    KINDS = ["RESET0", "FULL_FD", "FULL_10", "GARBAGE"]
+
+
 class RDACSystem3(RDACSystem):
     PEERS = [RA, RB, RC]
     # storage contents are a function of the step for this alphabet (no BARE_ variants), so the space stays ~16^3
@@ -445,7 +480,10 @@ def run(only=None):
     ]
     plan = [
         ("p2p_fixpoint_3sources", P2PSystem, None),
+        ("p2p_fixpoint_counter_octet_at_maximum", P2PSystemEdge, None),
+        ("p2p_fixpoint_ipv6_and_mapped_sources", P2PSystemV6, None),
         ("rdac_fixpoint_2peers", RDACSystem, None),
+        ("rdac_ipv6_and_mapped_peers", RDACSystemV6, None),
     ]
     if rep.thorough():
         plan += [("p2p_fixpoint_4sources", P2PSystem4, None), ("rdac_fixpoint_3peers", RDACSystem3, None)]
@@ -456,7 +494,7 @@ def run(only=None):
         import time as _t
         res = explore.bfs(cls, max_depth=depth, log=rep.log, deadline=_t.perf_counter() + (480 if rep.thorough() else 60))
         explore.feed(s, res, WHAT, name=name, rep=rep)
-        s.exhaustive = res.exhausted
+        s.exhaustive = res.exhausted or depth is not None
         if res.capped:
             rep.internal_error(f"{name}: {res.capped} (search incomplete, no fix-point)")
         s.done()
@@ -468,7 +506,8 @@ def replay(doc):
     SEAMS.install()
     Repeater.read_snmp_values = _stub_read_snmp_values
     cls = {"p2p_fixpoint_3sources": P2PSystem, "p2p_fixpoint_4sources": P2PSystem4, "rdac_fixpoint_2peers": RDACSystem,
-           "rdac_fixpoint_3peers": RDACSystem3}[doc["check"]]
+           "rdac_fixpoint_3peers": RDACSystem3, "p2p_fixpoint_counter_octet_at_maximum": P2PSystemEdge,
+           "p2p_fixpoint_ipv6_and_mapped_sources": P2PSystemV6, "rdac_ipv6_and_mapped_peers": RDACSystemV6}[doc["check"]]
     bad = 0
     for c in doc.get("cases", []):
         s = cls(c["init"])
